@@ -12,6 +12,8 @@
 //   last line:  "KILL before <N>"            (kill performed; exit status 137)
 //           or  "TOTAL <count> exit <code>"  (victim ended by itself; its status is passed on,
 //                                             128+sig when it died from a signal)
+//           or  "INTERRUPTED after <count>"  (the supervisor got SIGTERM/SIGINT/SIGHUP: it kills
+//                                             the victim tree and exits 203)
 // Exit status: 137 kill performed; victim status otherwise (values >= 200 are mapped to 199);
 //   200 usage, 201 cannot trace/fork, 202 exec failed, 203 supervisor interrupted.
 //
